@@ -63,7 +63,7 @@ pub fn session(rng: &mut Rng) -> Generated {
         let a = rng.range(1, 50);
         let b = rng.range(1, 50);
         let times = rng.range(0, 3);
-        match rng.below(16) {
+        match rng.below(17) {
             0 => {
                 names.push("early-exit");
                 let limit = rng.range(0, 8);
@@ -288,6 +288,32 @@ pub fn session(rng: &mut Rng) -> Generated {
                         "(define (deep{t} n c) (if (= n 0) (c (list 'bottom {b})) (+ 1 (deep{t} (- n 1) c))))
                          (call/cc (lambda (c) (deep{t} {a} c)))
                          (+ 5 (call/cc (lambda (c) (deep{t} 3 (lambda (v) 0)))))",
+                        t = t,
+                        a = a,
+                        b = b
+                    ),
+                );
+            }
+            15 => {
+                // re-entry from the very activation that captured k, with more operands pending at
+                // the invocation than at the capture
+                names.push("same-activation-reentry");
+                p(
+                    &mut forms,
+                    &format!(
+                        "(define (sameframe{t})
+                           (define k #f)
+                           (define n 0)
+                           (define r (+ {a} (call/cc (lambda (c) (set! k c) 1))))
+                           (set! n (+ n 1))
+                           (if (< n 3) (list 7 8 (k (* n 10))) (list r n)))
+                         (sameframe{t})
+                         (define (samelet{t} z)
+                           (let ((k #f) (n 0))
+                             (let ((r (list 'r {b} (call/cc (lambda (c) (set! k c) z)))))
+                               (set! n (+ n 1))
+                               (if (< n 3) (vector 1 2 3 (k (list n z))) (list r n)))))
+                         (samelet{t} 'zz)",
                         t = t,
                         a = a,
                         b = b
